@@ -79,7 +79,9 @@ impl<'a> Ipv6Slice<'a> {
                     use crate::err::ipv6_exts::HeaderSliceError::*;
                     match err {
                         Len(mut err) => {
-                            err.len_source = LenSource::Ipv6HeaderPayloadLen;
+                            // the slice is the limit in case of a
+                            // payload length of 0 (see above)
+                            err.len_source = len_source;
                             err.layer_start_offset += Ipv6Header::LEN;
                             SliceError::Len(err)
                         }
